@@ -33,6 +33,12 @@ package pluginregistry
 //@ iface ModelPlugin.GetInfo() (info)
 //@   pure
 //@   ensures info != nil
+// (assumed) the load status is one of the two values the registry assigns (loaded, loadingError)
+//@   ensures 0 <= info.Status && info.Status <= 1
+// the registry hands out the plugins it holds: none is nil
+//@ iface PluginRegistry.GetPlugins() (plugins)
+//@   modifies nothing
+//@   ensures forall p in plugins :: p != nil
 //@ ghost getPathValuesCalls int
 //@ ghost lastGetPathValuesPrefix string
 //@ iface ModelPlugin.GetPathValues(ctx, pathPrefix, jsonData) (values, err)
